@@ -90,6 +90,45 @@ class Ctx:
         )
 
 
+class GwfTimeout(Exception):
+    """The code under test did not return in time (reported as an observation, e.g. non-termination)."""
+
+
+class time_limit:
+    """with time_limit(60): ...  - SIGALRM based, for calls into the code under test (main thread only)."""
+
+    def __init__(self, seconds):
+        self.seconds = seconds
+
+    def _fire(self, signum, frame):
+        raise GwfTimeout("no result within %ds" % self.seconds)
+
+    def __enter__(self):
+        import signal
+
+        self.old = signal.signal(signal.SIGALRM, self._fire)
+        signal.alarm(self.seconds)
+
+    def __exit__(self, *exc):
+        import signal
+
+        signal.alarm(0)
+        signal.signal(signal.SIGALRM, self.old)
+        return False
+
+
+def _worker_init():
+    # a runaway loop in the code under test must not exhaust the machine: cap each worker's memory
+    import resource
+
+    lim = 6 * 1024**3
+    try:
+        soft, hard = resource.getrlimit(resource.RLIMIT_AS)
+        resource.setrlimit(resource.RLIMIT_AS, (lim, hard))      # soft limit only: TLC lifts it again
+    except (ValueError, OSError):
+        pass
+
+
 def pmap(fn, items, procs=NPROC, chunk=None):
     items = list(items)
     if not items:
@@ -97,7 +136,7 @@ def pmap(fn, items, procs=NPROC, chunk=None):
     if procs <= 1 or len(items) < 4:
         return [fn(x) for x in items]
     ctx = multiprocessing.get_context("fork")
-    with ctx.Pool(min(procs, len(items))) as pool:
+    with ctx.Pool(min(procs, len(items)), initializer=_worker_init) as pool:
         return pool.map(fn, items, chunksize=chunk or max(1, len(items) // (procs * 8)))
 
 
